@@ -25,7 +25,10 @@ RULE = ("random discrete Bayesian networks (1-6 nodes; chains, forks, colliders,
         "transition_models (Bayesian and Markov networks) and Gibbs.sample, simulate (do / evidence / virtual evidence / "
         "include_latents); the same kinds again with DECIMAL-ROUNDED columns (4 decimals, sum off by up to +-1e-3 in both "
         "directions, exact zeros first / last / middle, maximum anywhere; root priors reach _adjusted_weights un-normalised, "
-        "|1-sum| > 1e-3 must raise ValueError <-> model error 1) so that the adjustment is not the identity.  ORACLE kinds: numpy.random.choice is replaced in the worker by a recording oracle with "
+        "|1-sum| > 1e-3 must raise ValueError <-> model error 1) so that the adjustment is not the identity; TINY kind: CPDs with "
+        "near-identical but distinct columns (exact zeros next to 1e-9..1e-12, differences 1e-9..1e-12): likelihood weights, "
+        "choice() p vectors and weight maps compared RELATIVELY (1e-13 / 1e-12), BayesianModelProbability.log_probability of "
+        "every full assignment vs the exact value.  ORACLE kinds: numpy.random.choice is replaced in the worker by a recording oracle with "
         "pre-decided answers; every call's (p, size) and the whole returned frame must equal the extracted model's; "
         "besides, pgmpy's own weight maps (pre_compute_reduce_maps) must equal the CPD columns and transition_models the "
         "brute-force full conditional (the property predicate evaluated on the real code).  STRUCT kinds run the real "
@@ -219,6 +222,54 @@ def gen_net(rng, nmax=6, styles=None, zeros=True, maxcard=4, min_edges=0, str_no
             "card": card, "names": names, "vals": vals, "lat": lat}
 
 
+def gen_tiny_net(rng):
+    """a small network whose non-root CPDs hold NEAR-IDENTICAL BUT DISTINCT columns: exact zeros next to tiny
+    probabilities (1e-9..1e-12) and columns that differ by 1e-9..1e-12 in two entries.  Values are the exact rationals
+    of the floats pgmpy receives.  Returns (net, [child, state]) = the evidence that makes the difference visible."""
+    while True:
+        net = gen_net(rng, nmax=4, styles=["str"], zeros=False, maxcard=3, min_edges=1, str_nodes=True)
+        ch = [v for v in range(len(net["nodes"])) if net["pars"][str(v)] and net["card"][v] >= 2
+              and any(net["card"][u] >= 2 for u in net["pars"][str(v)])]
+        if ch:
+            break
+    net["lat"] = []
+    target = None
+    for v in ch:
+        card = net["card"][v]
+        ncol = 1
+        for u in net["pars"][str(v)]:
+            ncol *= net["card"][u]
+        kind = rng.choice(["zero-vs-tiny", "zero-vs-tiny", "delta"])
+        # the perturbed entry is entry 0: np.unique sorts the weight vectors lexicographically, so distinct columns
+        # must be separated (>= 9e-13) at the FIRST entry, far above the 1e-16 float noise of the normalisation;
+        # otherwise float and exact arithmetic may order two groups differently (a float artefact, not a defect)
+        a = 0
+        b_ = rng.randrange(1, card)
+        if kind == "zero-vs-tiny":
+            base = [0.0] * card
+            base[b_] = 1.0
+        else:
+            col = common.rand_column(rng, card, zeros=False)
+            base = [float(x) for x in col]
+        cols = []
+        for j in range(ncol):
+            eps = rng.choice([1e-9, 1e-10, 1e-11, 1e-12])
+            c = list(base)
+            r = rng.random()
+            if r < 0.6 or j == 1:
+                c[a] = base[a] + eps
+                c[b_] = base[b_] - eps
+            elif r < 0.75 and kind == "delta":
+                c[a] = base[a] - eps
+                c[b_] = base[b_] + eps
+            cols.append(c)
+        flat = [Fraction(cols[j][s_]) for s_ in range(card) for j in range(ncol)]
+        net["vals"][v] = [[x.numerator, x.denominator] for x in flat]
+        if target is None:
+            target = [v, a]
+    return net, target
+
+
 D16_NET = {"nodes": [["s", "A"], ["s", "B"]], "node_order": [0, 1], "edges": [[0, 1]], "cpd_order": [0, 1],
            "pars": {"0": [], "1": [0]}, "card": [2, 2], "names": [[["i", 1], ["i", 0]], [["s", "y"], ["s", "n"]]],
            "vals": [[[9, 10], [1, 10]], [[1, 1], [0, 1], [0, 1], [1, 1]]], "lat": []}
@@ -267,6 +318,11 @@ def cases(tier, seed):
         c = opt("struct_dec", nmax=4, min_edges=0, dec=True, str_nodes=True)
         c["seed"] = rng.randint(0, 10**6)
         out.append(c)
+    # near-identical but distinct CPD columns (differences 1e-9..1e-12): weights / log-probabilities compared relatively
+    for _ in range(60 * mult):
+        net, target = gen_tiny_net(rng)
+        out.append({"kind": "tiny", "net": net, "oseed": rng.randint(0, 10**9), "size": rng.choice([20, 30, 60]),
+                    "incl": True, "nev": 0, "force_ev": [target]})
     for _ in range(110 * mult):
         c = opt("reject", min_edges=1)
         c["size"] = rng.choice([1, 2, 3, 5, 8, 20])
@@ -513,15 +569,44 @@ def oracle(seed):
         np.random.choice = saved
 
 
+def close(a, b, rel=1e-13):
+    """|a - b| <= rel * |b| (+ 1e-300): a = pgmpy float, b = exact model value.  Relative, because CPD columns may
+    differ only by 1e-9..1e-12 (float error of a normalisation / a product of <= 6 entries is < 1e-14 relative)."""
+    a = float(a)
+    bf = float(b)
+    if a != a or bf != bf:
+        return False
+    return abs(a - bf) <= rel * abs(bf) + 1e-300
+
+
 def cmp_calls(o, mcalls):
     if len(o.calls) != len(mcalls):
         return "number of choice() calls: impl %d, model %d" % (len(o.calls), len(mcalls))
     for k, ((p, m, _), (mp, mm)) in enumerate(zip(o.calls, mcalls)):
         if m != mm:
             return "call %d: size impl %d, model %d" % (k, m, mm)
-        if len(p) != len(mp) or not all(common.approx(x, common.frac(y)) for x, y in zip(p, mp)):
+        if len(p) != len(mp) or not all(close(x, common.frac(y), 1e-12) for x, y in zip(p, mp)):
             return "call %d: p impl %r, model %r" % (k, p, [str(common.frac(y)) for y in mp])
     return None
+
+
+def same_calls_other_order(o, mcalls):
+    """True when impl and model made the same choice() calls (size, p) but in a different ORDER: np.unique orders weight
+    vectors lexicographically on floats, the model on exact rationals; vectors that agree to ~1e-16 in an entry can be
+    ordered differently.  Float rounding is not modelled: such a case is skipped (tag float-sort-knife-edge)."""
+    if len(o.calls) != len(mcalls):
+        return False
+    used = [False] * len(mcalls)
+    for p, m, _ in o.calls:
+        hit = None
+        for k, (mp, mm) in enumerate(mcalls):
+            if not used[k] and mm == m and len(mp) == len(p) and all(close(x, common.frac(y), 1e-12) for x, y in zip(p, mp)):
+                hit = k
+                break
+        if hit is None:
+            return False
+        used[hit] = True
+    return True
 
 
 def cmp_frames(fi, fm):
@@ -562,7 +647,7 @@ def spec_weight_maps(N, model):
                 exp = [N.entry(v, k, asg) for k in range(N.card[v])]
                 tot = sum(exp)
                 exp = [x / tot for x in exp]      # _reduce_marg normalises (identity for exact columns)
-                if not all(common.approx(a, b) for a, b in zip(w, exp)):
+                if not all(close(a, b) for a, b in zip(w, exp)):
                     return {"node": repr(N.node[v]), "evidence": repr(evid), "parent_state_numbers": list(t),
                             "weights": w, "cpd_column": [str(x) for x in exp]}
     return None
@@ -621,6 +706,8 @@ def run_kind(case, drv, N, model, key, tags, kind):
         return run_reject(case, drv, N, model, key, tags)
     if kind == "lw":
         return run_lw(case, drv, N, model, key, tags)
+    if kind == "tiny":
+        return run_tiny(case, drv, N, model, key, tags)
     if kind == "gibbs":
         return run_gibbs(case, drv, N, model, key, tags)
     if kind == "simulate":
@@ -661,6 +748,8 @@ def run_forward(case, drv, N, model, key, tags):
                                    "case": case}, key=key, tags=tags)
     cols, rows, mcalls, consumed = r
     d = cmp_calls(o, mcalls)
+    if d is not None and same_calls_other_order(o, mcalls):
+        return ok(nontrivial=False, key=key, tags=tags + ["float-sort-knife-edge"])
     if d is None and consumed != len(o.draws()):
         d = "draws consumed: impl %d, model %d" % (len(o.draws()), consumed)
     if d is None:
@@ -731,6 +820,8 @@ def run_reject(case, drv, N, model, key, tags):
         return bad("impl!=model", {"what": "batch sizes impl %r model %r" % (sizes, msizes), "case": case},
                    key=key, tags=tags)
     d = cmp_calls(o, mcalls)
+    if d is not None and same_calls_other_order(o, mcalls):
+        return ok(nontrivial=False, key=key, tags=tags + ["float-sort-knife-edge"])
     if d is None:
         d = cmp_frames(N.frame(df), model_frame(cols, rows))
     if d is None and len(df) != size:
@@ -756,6 +847,8 @@ def run_lw(case, drv, N, model, key, tags):
     rng = random.Random(case["oseed"])
     size, incl = case["size"], case["incl"]
     asg, evn = pick_evidence(N, rng, case["nev"])
+    if case.get("force_ev"):
+        evn = [list(x) for x in case["force_ev"]]
     s = BayesianModelSampling(model)
     order = [N.id[x] for x in s.topological_order]
     ev = [State(N.node[v], N.names[v][k]) for v, k in evn]
@@ -765,13 +858,15 @@ def run_lw(case, drv, N, model, key, tags):
     zev = [[v, N.znames[v][k]] for v, k in evn]
     cols, rows, mw, mcalls, consumed = drv.call("c07_lw", [N.sx(model), order, zev, size, incl, o.draws()])
     d = cmp_calls(o, mcalls)
+    if d is not None and same_calls_other_order(o, mcalls):
+        return ok(nontrivial=False, key=key, tags=tags + ["float-sort-knife-edge"])
     if d is None:
         d = cmp_frames(N.frame(df), model_frame(cols, rows))
     if d is None and len(df) != size:
         d = "rows: %d, requested %d" % (len(df), size)
     if d is None:
         w = [float(x) for x in df["_weight"].tolist()]
-        if len(w) != len(mw) or not all(common.approx(a, common.frac(b)) for a, b in zip(w, mw)):
+        if len(w) != len(mw) or not all(close(a, common.frac(b)) for a, b in zip(w, mw)):
             d = "weights impl %r model %r" % (w[:20], [str(common.frac(b)) for b in mw[:20]])
     if d is None:
         f = N.frame(df)
@@ -785,6 +880,42 @@ def run_lw(case, drv, N, model, key, tags):
         return finding_or_violation(N, "impl!=spec", {"what": "weight map is not the CPD column", "where": sp,
                                                       "case": case}, key, tags)
     return ok(nontrivial=bool(N.net["edges"]) and len(evn) > 0, key=key, tags=tags)
+
+
+def run_tiny(case, drv, N, model, key, tags):
+    """near-identical distinct columns: (1) likelihood weights under the oracle vs the model (relative 1e-13), which also
+    checks pgmpy's weight map against the normalised CPD column for EVERY parent configuration (spec_weight_maps);
+    (2) BayesianModelProbability.log_probability of every full assignment vs the exact value"""
+    import numpy as np
+    import pandas as pd
+    from pgmpy.metrics.bn_inference import BayesianModelProbability
+
+    r = run_lw(case, drv, N, model, key, tags)
+    if not r["ok"]:
+        return r
+    asgs = list(itertools.product(*[range(c) for c in N.card]))
+    df = pd.DataFrame({N.node[v]: [N.names[v][t[v]] for t in asgs] for v in range(N.n)})
+    with np.errstate(divide="ignore"):
+        lp = BayesianModelProbability(model).log_probability(df)
+    for t, got in zip(asgs, [float(x) for x in lp]):
+        asg = dict(enumerate(t))
+        p = Fraction(1)
+        for v in range(N.n):
+            e = N.entry(v, t[v], asg)
+            if N.pars[v]:
+                e = e / sum(N.entry(v, k, asg) for k in range(N.card[v]))     # _reduce_marg normalises
+            p *= e
+        if p == 0:
+            okrow = got == float("-inf")
+            exp = float("-inf")
+        else:
+            exp = math.log(p.numerator) - math.log(p.denominator) if p.denominator.bit_length() > 1000 else math.log(p)
+            okrow = abs(got - exp) <= 1e-13 * max(1.0, abs(exp))
+        if not okrow:
+            return bad("impl!=spec", {"what": "log_probability of a full assignment", "assignment": list(t),
+                                      "impl": got, "exact": exp, "case": case}, key=key, tags=tags)
+    r["tags"] = list(r["tags"]) + ["logprob-rows=%d" % len(asgs)]
+    return r
 
 
 def full_conditional(factors, cards, nvars, v, others, tup):
@@ -1047,6 +1178,8 @@ def run_simulate(case, drv, N, model, key, tags):
         return bad("impl!=model", {"what": "batch sizes impl %r model %r" % (sizes, msizes), "case": case},
                    key=key, tags=tags)
     d = cmp_calls(o, mcalls)
+    if d is not None and same_calls_other_order(o, mcalls):
+        return ok(nontrivial=False, key=key, tags=tags + ["float-sort-knife-edge"])
     if d is None:
         d = cmp_frames(N.frame(df, extra), model_frame(cols, rows))
     if d is None and len(df) != size:
